@@ -1,6 +1,7 @@
 import DtsVerif.Model.Scatter
 import DtsVerif.Model.Calib
 import DtsVerif.Lemmas.NumpyIdx
+import DtsVerif.Lemmas.Scatter
 /-!
 # Every unknown of the double-ended fit lands at the documented position of the parameter it is (C02, C04), for every size
 
@@ -274,3 +275,168 @@ theorem scatter_single_mem_activeCols (inp : Input) (hd : inp.doubleEnded = fals
     simp [hdal]
 
 end DtsVerif.C07
+
+namespace DtsVerif.C02
+open DtsVerif.Scatter DtsVerif.Py
+
+/-! ### values are scattered like covariances: `po_sol` / `po_var` -/
+section PoSol
+variable {α : Type} (p E : List α) (zero : α) (nt nxs N T : Nat) (ixSec : List Nat)
+
+theorem poSol_eq (hp : p.length = 1 + 2 * nt + (nxs - 1) + T) (hpos : 0 < nxs) :
+    poSol p E zero nt nxs ixSec =
+      (assignAt (p.take (1 + 2 * nt) ++ E ++ p.drop (2 * nt + nxs)) (ixSec.tail.map (fun i => 1 + 2 * nt + i))
+        ((p.drop (1 + 2 * nt)).take (nxs - 1))).set (1 + 2 * nt + ixSec.headD 0) zero := by
+  unfold poSol
+  rw [pySlice_to, Shift.pySlice_from, pySlice_between _ _ _ (by omega) (by omega)]
+  have : 2 * nt + nxs - (1 + 2 * nt) = nxs - 1 := by omega
+  rw [this]
+
+private theorem idx_props (hsz : ixSec.length = nxs) (hnd : ixSec.Nodup) (hlt : ∀ i ∈ ixSec, i < N) :
+    (ixSec.tail.map (fun i => 1 + 2 * nt + i)).Nodup ∧
+    (∀ j ∈ ixSec.tail.map (fun i => 1 + 2 * nt + i), 1 + 2 * nt ≤ j ∧ j < 1 + 2 * nt + N) ∧
+    (1 + 2 * nt + ixSec.headD 0) ∉ ixSec.tail.map (fun i => 1 + 2 * nt + i) := by
+  cases ixSec with
+  | nil => simp
+  | cons h t =>
+    rw [List.nodup_cons] at hnd
+    refine ⟨?_, ?_, ?_⟩
+    · simp only [List.tail_cons]
+      exact List.Pairwise.map (fun i => 1 + 2 * nt + i) (fun a b hab heq => hab (by omega)) hnd.2
+    · intro j hj
+      simp only [List.tail_cons, List.mem_map] at hj
+      obtain ⟨i, hi, rfl⟩ := hj
+      have := hlt i (by simp [hi])
+      omega
+    · simp only [List.tail_cons, List.headD_cons, List.mem_map, not_exists, not_and]
+      intro i hi heq
+      have : i = h := by omega
+      exact hnd.1 (this ▸ hi)
+
+/-- γ, df, db: `po_sol[c] = p_sol[c]` -/
+theorem poSol_head (hp : p.length = 1 + 2 * nt + (nxs - 1) + T) (hE : E.length = N) (hsz : ixSec.length = nxs) (hpos : 0 < nxs)
+    (hnd : ixSec.Nodup) (hlt : ∀ i ∈ ixSec, i < N) (c : Nat) (hc : c < 1 + 2 * nt) :
+    (poSol p E zero nt nxs ixSec)[c]? = p[c]? := by
+  obtain ⟨_, hrange, _⟩ := idx_props nt nxs N ixSec hsz hnd hlt
+  rw [poSol_eq p E zero nt nxs T ixSec hp hpos, List.getElem?_set_ne (by omega)]
+  rw [getElem?_assignAt_not_mem _ _ _ _ (fun hmem => by have := (hrange c hmem).1; omega)]
+  rw [List.append_assoc, List.getElem?_append_left (by simp; omega)]
+  simp [List.getElem?_take, hc]
+
+/-- the first reference location: exactly `0` -/
+theorem poSol_first (hp : p.length = 1 + 2 * nt + (nxs - 1) + T) (hE : E.length = N) (hsz : ixSec.length = nxs) (hpos : 0 < nxs)
+    (hlt : ∀ i ∈ ixSec, i < N) :
+    (poSol p E zero nt nxs ixSec)[1 + 2 * nt + ixSec.headD 0]? = some zero := by
+  rw [poSol_eq p E zero nt nxs T ixSec hp hpos]
+  have hh : ixSec.headD 0 < N := by
+    cases ixSec with
+    | nil => simp at hsz; omega
+    | cons h t => exact hlt h (by simp)
+  rw [List.getElem?_set_self (by rw [length_assignAt]; simp only [List.length_append, List.length_take, List.length_drop, hE]; omega)]
+
+/-- reference row `q ≥ 1`: the `q−1`-th attenuation unknown of the solver -/
+theorem poSol_ref (hp : p.length = 1 + 2 * nt + (nxs - 1) + T) (hE : E.length = N) (hsz : ixSec.length = nxs) (hpos : 0 < nxs)
+    (hnd : ixSec.Nodup) (hlt : ∀ i ∈ ixSec, i < N) (q : Nat) (hq1 : 1 ≤ q) (hq : q < nxs) :
+    (poSol p E zero nt nxs ixSec)[1 + 2 * nt + ixSec.getD q 0]? = p[1 + 2 * nt + (q - 1)]? := by
+  obtain ⟨hndI, hrange, hfirst⟩ := idx_props nt nxs N ixSec hsz hnd hlt
+  rw [poSol_eq p E zero nt nxs T ixSec hp hpos]
+  have hlenI : (ixSec.tail.map (fun i => 1 + 2 * nt + i)).length = nxs - 1 := by simp [hsz]
+  have hq' : q - 1 < (ixSec.tail.map (fun i => 1 + 2 * nt + i)).length := by omega
+  have hidx : (ixSec.tail.map (fun i => 1 + 2 * nt + i))[q - 1] = 1 + 2 * nt + ixSec.getD q 0 := by
+    cases ixSec with
+    | nil => simp at hsz; omega
+    | cons h t =>
+      simp only [List.tail_cons, List.getElem_map]
+      have hlt' : q - 1 < t.length := by simp at hsz; omega
+      obtain ⟨q', rfl⟩ : ∃ q', q = q' + 1 := ⟨q - 1, by omega⟩
+      simp only [Nat.add_sub_cancel] at hlt' ⊢
+      simp [List.getD, hlt']
+  have hne : 1 + 2 * nt + ixSec.headD 0 ≠ 1 + 2 * nt + ixSec.getD q 0 := by
+    intro heq
+    apply hfirst
+    rw [heq, ← hidx]
+    exact List.getElem_mem _
+  rw [List.getElem?_set_ne hne, ← hidx]
+  rw [getElem?_assignAt_mem _ _ _ hndI (by simp [hsz]; omega) (by
+    intro j hj
+    have := (hrange j hj).2
+    simp [hE]; omega) (q - 1) hq']
+  simp [List.getElem?_take, List.getElem?_drop]
+  omega
+
+/-- a location that is no reference location: the value of `calc_alpha_double(mode="exact")` there -/
+theorem poSol_outside (hp : p.length = 1 + 2 * nt + (nxs - 1) + T) (hE : E.length = N) (hsz : ixSec.length = nxs) (hpos : 0 < nxs)
+    (i : Nat) (hi : i < N) (hout : i ∉ ixSec) :
+    (poSol p E zero nt nxs ixSec)[1 + 2 * nt + i]? = E[i]? := by
+  rw [poSol_eq p E zero nt nxs T ixSec hp hpos]
+  have hne : 1 + 2 * nt + ixSec.headD 0 ≠ 1 + 2 * nt + i := by
+    intro heq
+    have : ixSec.headD 0 = i := by omega
+    cases ixSec with
+    | nil => simp at hsz; omega
+    | cons h t => simp at this; exact hout (by simp [this])
+  rw [List.getElem?_set_ne hne]
+  rw [getElem?_assignAt_not_mem _ _ _ _ (by
+    simp only [List.mem_map, not_exists, not_and]
+    intro j hj heq
+    have : j = i := by omega
+    exact hout (this ▸ List.mem_of_mem_tail hj))]
+  rw [List.getElem?_append_left (by simp [hE]; omega), List.getElem?_append_right (by simp; omega)]
+  simp
+  congr 1
+  omega
+
+/-- the splice losses: `po_sol[1 + 2nt + N + t] = p_sol[1 + 2nt + (nxs − 1) + t]` -/
+theorem poSol_ta (hp : p.length = 1 + 2 * nt + (nxs - 1) + T) (hE : E.length = N) (hsz : ixSec.length = nxs) (hpos : 0 < nxs)
+    (hnd : ixSec.Nodup) (hlt : ∀ i ∈ ixSec, i < N) (t : Nat) (ht : t < T) :
+    (poSol p E zero nt nxs ixSec)[1 + 2 * nt + N + t]? = p[1 + 2 * nt + (nxs - 1) + t]? := by
+  obtain ⟨_, hrange, _⟩ := idx_props nt nxs N ixSec hsz hnd hlt
+  rw [poSol_eq p E zero nt nxs T ixSec hp hpos]
+  have hh : ixSec.headD 0 < N := by
+    cases ixSec with
+    | nil => simp at hsz; omega
+    | cons h t => exact hlt h (by simp)
+  rw [List.getElem?_set_ne (by omega)]
+  rw [getElem?_assignAt_not_mem _ _ _ _ (fun hmem => by have := (hrange _ hmem).2; omega)]
+  rw [List.getElem?_append_right (by simp [hE]; omega)]
+  simp [hE, List.getElem?_drop]
+  congr 1
+  omega
+
+/-- **values and covariances use one map**: every unknown `k` of the solver is reported in `po_sol` (and its variance in `po_var`) at
+exactly the position `from_i[k]` at which its covariances are stored in `po_cov` -/
+theorem poSol_follows_fromI (nta : Nat) (hp : p.length = 1 + 2 * nt + (nxs - 1) + nta * nt * 2) (hE : E.length = N)
+    (hsz : ixSec.length = nxs) (hpos : 0 < nxs) (hnd : ixSec.Nodup) (hlt : ∀ i ∈ ixSec, i < N) (k : Nat) (hk : k < p.length) :
+    ∃ pos, (fromISolver nt N nta ixSec.tail)[k]? = some pos ∧ (poSol p E zero nt nxs ixSec)[pos]? = p[k]? := by
+  have htl : ixSec.tail.length = nxs - 1 := by simp [hsz]
+  by_cases h1 : k < 1 + 2 * nt
+  · exact ⟨k, scatter_solver_head nt N nta _ k h1, poSol_head p E zero nt nxs N _ ixSec hp hE hsz hpos hnd hlt k h1⟩
+  · by_cases h2 : k < 1 + 2 * nt + (nxs - 1)
+    · have hq : k - (1 + 2 * nt) < ixSec.tail.length := by omega
+      refine ⟨1 + 2 * nt + ixSec.tail[k - (1 + 2 * nt)], ?_, ?_⟩
+      · have := scatter_solver_alpha nt N nta ixSec.tail (k - (1 + 2 * nt)) hq
+        have hk' : 1 + 2 * nt + (k - (1 + 2 * nt)) = k := by omega
+        rw [hk'] at this; exact this
+      · have hget : ixSec.tail[k - (1 + 2 * nt)] = ixSec.getD (k - (1 + 2 * nt) + 1) 0 := by
+          cases ixSec with
+          | nil => simp at hsz; omega
+          | cons h t =>
+            simp only [List.tail_cons, List.getD_cons_succ]
+            have : k - (1 + 2 * nt) < t.length := by simpa using hq
+            simp [List.getD, this]
+        rw [hget]
+        have := poSol_ref p E zero nt nxs N _ ixSec hp hE hsz hpos hnd hlt (k - (1 + 2 * nt) + 1) (by omega) (by omega)
+        rw [this]
+        congr 1; omega
+    · have ht : k - (1 + 2 * nt + (nxs - 1)) < nta * nt * 2 := by omega
+      refine ⟨1 + 2 * nt + N + (k - (1 + 2 * nt + (nxs - 1))), ?_, ?_⟩
+      · have := scatter_solver_ta nt N nta ixSec.tail _ ht
+        rw [htl] at this
+        have hk' : 1 + 2 * nt + (nxs - 1) + (k - (1 + 2 * nt + (nxs - 1))) = k := by omega
+        rw [hk'] at this; exact this
+      · have := poSol_ta p E zero nt nxs N _ ixSec hp hE hsz hpos hnd hlt _ ht
+        rw [this]; congr 1; omega
+
+end PoSol
+
+end DtsVerif.C02
